@@ -131,6 +131,7 @@ inductive Err
   | respondError       -- RespondError("unknown mode")
   | valueError         -- ValueError("malicious zipfile …") / zipfile's "Empty filename."
   | osError            -- FileNotFoundError / NotADirectoryError / IsADirectoryError
+  | transferError      -- TransferError (what `_go` makes of a RespondError; a dropped connection)
   deriving DecidableEq, Repr
 
 def Err.name : Err → String
@@ -138,6 +139,7 @@ def Err.name : Err → String
   | .respondError => "RespondError"
   | .valueError => "ValueError"
   | .osError => "OSError"
+  | .transferError => "TransferError"
 
 /-- the part of `args` the anchored code reads; `outputFile = []` is `None`/`""` (both falsy);
     `answer` is what the user types at `ok? (Y/n):`; `proc` is `os.getcwd()` (only consulted by
@@ -234,6 +236,38 @@ def writeFile (fs : FS) (dest tmp : Path) : FS × Except Err Unit :=
   if fs.isDir dest = true then (fs, .error .osError)
   else ((fs.remove tmp).set dest .file, .ok ())
 
+/-- the `try: yield self._parse_offer(…) except RespondError as r: … raise TransferError(r.response)` of
+    `Receiver._go`: a `RespondError` (`TransferRejectedError` is one) is reported to the sender and
+    becomes `TransferError`; anything else propagates.  The handler has NO file-system effect. -/
+def goErr : Err → Err
+  | .transferRejected => .transferError
+  | .respondError => .transferError
+  | e => e
+
+/-- `_go` → `_parse_offer` for a file offer: `_handle_file`, `_transfer_data` (which raises
+    `TransferError` when the connection drops before `filesize` bytes arrived), `_write_file`.
+    On every failure the file system stays as it is at that point (a stray `NAME.tmp` included). -/
+def offerFile (fs : FS) (a : Args) (filename : Path) (dropped : Bool) : FS × Except Err Path :=
+  match handleFile fs a filename with
+  | (fs1, .error e) => (fs1, .error (goErr e))
+  | (fs1, .ok (d, t)) =>
+    if dropped = true then (fs1, .error .transferError)
+    else
+      match writeFile fs1 d t with
+      | (fs2, .error e) => (fs2, .error (goErr e))
+      | (fs2, .ok _) => (fs2, .ok d)
+
+/-- `_go` → `_parse_offer` for a directory offer, as far as paths that existed before are
+    concerned: `_handle_directory`, `_transfer_data`, then `_write_directory`, which creates the
+    destination directory as soon as zipfile starts on a member (`extracted`, observed by the harness;
+    what happens below the destination is `writeDirectory`'s business). -/
+def offerDirectory (fs : FS) (a : Args) (mode dirnm : Path) (dropped extracted : Bool) : FS × Except Err Path :=
+  match handleDirectory fs a mode dirnm with
+  | (fs1, .error e) => (fs1, .error (goErr e))
+  | (fs1, .ok d) =>
+    if dropped = true then (fs1, .error .transferError)
+    else (if extracted = true then fs1.set d .dir else fs1, .ok d)
+
 /-- the guard of `Receiver._extract_file`: `Ok out_path` or `ValueError` -/
 def extractGuard (proc : Path) (extractDir : Path) (filename : Path) : Except Err Path :=
   let out := abspath proc (join2 extractDir filename)
@@ -282,6 +316,21 @@ def modelCalls : String → List (String × String)
     [("-", "os.path.join"), ("-", "os.path.abspath"), ("-", "out_path.startswith"), ("if", "ValueError"),
      ("-", "zf.extract"), ("-", "os.chmod")]
   | "_write_file" => [("-", "f.close"), ("-", "os.rename")]
+  -- the control flow around them (`offerFile`, `offerDirectory`, `goErr`): the only handler around
+  -- `_parse_offer` reports to the sender and re-raises; nothing else runs on a failure path
+  | "_go" =>
+    [("-", "self._handle_code"), ("-", "self._show_verifier"), ("while", "self._get_data"),
+     ("while/if", "self._parse_transit"), ("while/if/if", "TransferError"),
+     ("while/if/try", "self._parse_offer"), ("while/if/except", "self._send_data"),
+     ("while/if/except", "TransferError")]
+  | "_parse_offer" =>
+    [("if", "self._handle_text"),
+     ("if", "self._handle_file"), ("if", "self._send_permission"), ("if", "self._establish_transit"),
+     ("if", "self._transfer_data"), ("if", "self._write_file"), ("if", "self._close_transit"),
+     ("else/if", "self._handle_directory"), ("else/if", "self._send_permission"),
+     ("else/if", "self._establish_transit"), ("else/if", "self._transfer_data"),
+     ("else/if", "self._write_directory"), ("else/if", "self._close_transit"),
+     ("else/else", "self._msg"), ("else/else", "self._msg"), ("else/else", "RespondError")]
   | "_write_directory" =>
     [("-", "zipfile.ZipFile"), ("-", "zf.infolist"), ("for", "self._extract_file"), ("-", "f.close")]
   | _ => []
@@ -297,6 +346,8 @@ decide <name>                    -> ok <dest> | <kinds>      or   <Error> | <kin
 handle_file <name>               -> ok <dest> <tmp> | <kinds>
 handle_dir <mode> <name>         -> ok <dest> | <kinds>
 write_file                       -> ok | <kinds>             (rename of the last handle_file)
+offer_file <name> <dropped 0/1>  -> ok <dest> | <kinds>      (Receiver.go() on a file offer, to the end)
+offer_dir <mode> <name> <dropped 0/1> <extracted 0/1>  -> ok <dest> | <kinds>
 guard <dest> <member>            -> ok <out_path> | ValueError
 extract <dest> <member>          -> ok <target> <out_path> | ValueError
 ```
@@ -364,6 +415,20 @@ def step (s : DrvSt) (line : String) : DrvSt × String :=
     match unhx m, unhx n with
     | some m, some n =>
       match handleDirectory s.fs s.args m n with
+      | (fs', .ok d) => let s' := { s with fs := fs' }; (s', s!"ok {hx d} | {showKinds s'}")
+      | (fs', .error e) => let s' := { s with fs := fs' }; (s', s!"{e.name} | {showKinds s'}")
+    | _, _ => (s, "bad-op")
+  | ["offer_file", n, dr] =>
+    match unhx n with
+    | some n =>
+      match offerFile s.fs s.args n (dr == "1") with
+      | (fs', .ok d) => let s' := { s with fs := fs' }; (s', s!"ok {hx d} | {showKinds s'}")
+      | (fs', .error e) => let s' := { s with fs := fs' }; (s', s!"{e.name} | {showKinds s'}")
+    | none => (s, "bad-op")
+  | ["offer_dir", m, n, dr, ex] =>
+    match unhx m, unhx n with
+    | some m, some n =>
+      match offerDirectory s.fs s.args m n (dr == "1") (ex == "1") with
       | (fs', .ok d) => let s' := { s with fs := fs' }; (s', s!"ok {hx d} | {showKinds s'}")
       | (fs', .error e) => let s' := { s with fs := fs' }; (s', s!"{e.name} | {showKinds s'}")
     | _, _ => (s, "bad-op")
